@@ -224,6 +224,117 @@ def mutate(rng, b):
     return bytes(b)
 
 
+def build_file(rng, objs, use_stream, ostm=None, trailer_extra=b'', lie=None):
+    """A small PDF assembled by hand.  objs: [(num, gen, body bytes)] written as `num gen obj\n body \nendobj\n`;
+    ostm: (container number, [(num, text)], extra dict bytes) -- an unfiltered object stream; its members get type-2
+    entries (only possible with a cross-reference stream); lie: {num: entry override} to misplace entries."""
+    out = bytearray(b'%PDF-1.5\n%\xbb\xad\xc0\xde\n')
+    entries = {}
+    for num, gen, body in objs:
+        entries[num] = (1, len(out), gen)
+        out += b'%d %d obj\n' % (num, gen) + body + b'\nendobj\n'
+    if ostm is not None:
+        cnum, members, extra = ostm
+        head, data, pos = b'', b'', 0
+        for i, (num, text) in enumerate(members):
+            head += b'%d %d ' % (num, pos)
+            data += text + b' '
+            pos += len(text) + 1
+            if num not in entries or rng.random() < 0.5:
+                entries[num] = (2, cnum, i)
+        content = head + data
+        entries[cnum] = (1, len(out), 0)
+        out += b'%d 0 obj\n<</Type/ObjStm/N %d/First %d%s/Length %d>>stream\n' % (cnum, len(members), len(head), extra, len(content)) \
+               + content + b'\nendstream\nendobj\n'
+    for k, v in (lie or {}).items():
+        entries[k] = v
+    size = max(entries) + 2 if entries else 1
+    start = len(out)
+    if use_stream:
+        xnum = size - 1
+        entries[xnum] = (1, start, 0)
+        nums = sorted(entries)
+        index, rows = [], b''
+        for n_ in nums:
+            t, a, b_ = entries[n_]
+            if index and index[-1][0] + index[-1][1] == n_:
+                index[-1][1] += 1
+            else:
+                index.append([n_, 1])
+            rows += bytes([t]) + (a % 2**32).to_bytes(4, 'big') + (b_ % 65536).to_bytes(2, 'big')
+        idx = b' '.join(b'%d %d' % (a, c) for a, c in index)
+        out += b'%d 0 obj\n<</Type/XRef/Size %d/W[1 4 2]/Index[%s]%s/Length %d>>stream\n' % (xnum, size, idx, trailer_extra, len(rows)) \
+               + rows + b'\nendstream\nendobj\n'
+    else:
+        out += b'xref\n0 1\n0000000000 65535 f \n'
+        for n_ in sorted(entries):
+            t, a, b_ = entries[n_]
+            if t == 1:
+                out += b'%d 1\n%010d %05d n \n' % (n_, a, b_)
+        out += b'trailer\n<</Size %d%s>>' % (size, trailer_extra)
+    out += b'\nstartxref\n%d\n%%%%EOF' % start
+    return bytes(out)
+
+
+def gen_ext_files(rng, n):
+    """files that use what Model/LoaderExt.v adds: Length given as a reference (resolved while parsing, through a chain,
+    in a cycle, to a non-integer, to an object kept in an object stream), object streams (members named by the table or
+    not, colliding with top-level objects and with each other, damaged index)"""
+    files = []
+    for _ in range(n):
+        kind = rng.randrange(8)
+        body = rng.choice([b'abc', b'', b'endstream', b'x' * 20, b'\r\n', b'12345\nendstream\nendobj'])
+        objs, ostm, lie, use_stream = [], None, None, rng.random() < 0.5
+        if kind == 0:       # Length reference to an integer object, before or after the stream, right or wrong generation
+            g = rng.choice([0, 0, 3])
+            ln = (2, g, b'%d' % (len(body) + rng.choice([0, 0, 0, 1, -1, 50])))
+            st = (1, 0, b'<</Length 2 %d R/K(v)>>stream\n' % rng.choice([g, g, 0]) + body + b'\nendstream')
+            objs = [ln, st] if rng.random() < 0.5 else [st, ln]
+        elif kind == 1:     # chain of references / of streams
+            depth = rng.randint(1, 6)
+            st = (1, 0, b'<</Length 2 0 R>>stream\n' + body + b'\nendstream')
+            objs = [st]
+            for i in range(depth):
+                last = i == depth - 1
+                if rng.random() < 0.5:
+                    objs.append((2 + i, 0, (b'%d' % len(body)) if last else b'%d 0 R' % (3 + i)))
+                else:
+                    objs.append((2 + i, 0, b'<</Length %s>>stream\nzz\nendstream' % ((b'2') if last else b'%d 0 R' % (3 + i))))
+        elif kind == 2:     # cycle, self reference, missing target, non-integer target
+            tgt = rng.choice([b'1 0 R', b'2 0 R', b'9 0 R'])
+            objs = [(1, 0, b'<</Length %s>>stream\n' % tgt + body + b'\nendstream'),
+                    (2, 0, rng.choice([b'1 0 R', b'2 0 R', b'/Name', b'(3)', b'3.0', b'null', b'-1', b'99999']))]
+        elif kind == 3:     # the length lives in an object stream
+            use_stream = True
+            objs = [(1, 0, b'<</Length 5 0 R/A 1>>stream\n' + body + b'\nendstream'), (3, 0, b'<</Type/Catalog>>')]
+            ostm = (4, [(5, b'%d' % (len(body) + rng.choice([0, 0, 1, -1, 1000]))), (6, b'[1 2 3]')], b'')
+        elif kind == 4:     # plain object stream, members of every direct kind
+            use_stream = True
+            objs = [(1, 0, b'<</Type/Catalog/P 5 0 R>>')]
+            members = [(5, b'<</A(x)/B[1 2.5 /N]>>'), (6, b'42'), (7, b'(str)'), (8, b'/Name'), (9, b'[5 0 R null true]')]
+            rng.shuffle(members)
+            ostm = (3, members[:rng.randint(0, 5)], rng.choice([b'', b'/Extends 9 0 R']))
+        elif kind == 5:     # collisions: a member with the number of a top-level object / two members with one number
+            use_stream = True
+            objs = [(1, 0, b'<</Type/Catalog>>'), (5, 0, b'(top level 5)')]
+            ostm = (3, [(5, b'(member 5)'), (6, b'(first 6)'), (6, b'(second 6)'), (1, b'(member 1)')], b'')
+        elif kind == 6:     # the table names a member in ANOTHER container / as a Normal entry elsewhere
+            use_stream = True
+            objs = [(1, 0, b'<</Type/Catalog>>')]
+            ostm = (3, [(5, b'(five)'), (6, b'(six)')], b'')
+            lie = {5: (2, rng.choice([3, 4, 1]), 0), 6: rng.choice([(2, 3, 7), (1, 9, 0), (0, 0, 0)])}
+        else:               # object stream in a file with a cross-reference TABLE (members unlisted), damaged First / N
+            objs = [(1, 0, b'<</Type/Catalog>>')]
+            ostm = (3, [(5, b'(five)'), (6, b'<</K 1>>')], b'')
+            f = build_file(rng, objs, use_stream, ostm)
+            f = f.replace(b'/First ', rng.choice([b'/First ', b'/First -', b'/Firs ', b'/First 9', b'/First 0']), 1)
+            f = f.replace(b'/N ', rng.choice([b'/N ', b'/M ', b'/N /x ']), 1)
+            files.append(f)
+            continue
+        files.append(build_file(rng, objs, use_stream, ostm, lie=lie))
+    return files
+
+
 def gen_cases(rng, tier):
     key = tier        # one seed per process: run() needs the same cases twice
     if key in _MEMO:
@@ -276,6 +387,10 @@ def gen_cases(rng, tier):
         for f in files:
             for _ in range(3):
                 cases.append((L('load', xb(mutate(rng, f))), {'kind': 'load-mutated', 'nontrivial': True}))
+        for f in gen_ext_files(rng, 64 if tier == 'quick' else 1500):
+            cases.append((L('load', xb(f)), {'kind': 'load-ext', 'nontrivial': True}))
+            if rng.random() < 0.3:
+                cases.append((L('load', xb(mutate(rng, f))), {'kind': 'load-ext-mutated', 'nontrivial': True}))
         for f in (b'', b'%PDF-1.4', b'%PDF-1.5\n%%EOF\n', b'%PDF-1.4\nstartxref\n0\n%%EOF', b'x' * 40 + b'\nstartxref\n5\n%%EOF',
                   b'%PDF-\xff\n' + b' ' * 30 + b'startxref\n0\n%%EOF'):
             cases.append((L('load', xb(f)), {'kind': 'load-fixed', 'nontrivial': True}))
@@ -388,34 +503,37 @@ SPEC = {
             'non-trivial = at least one object; distinct = distinct case text',
     'extra_trusted': ['C01: reals are compared as f32 bit patterns (exact decimal->f32 rounding in lib/vlib.py); '
                       'f32 Display/FromStr are Rust std (assumed: from_str(to_string x) = x, Display is shortest round-trip without exponent)'],
-    'partial_note': 'PROVED: for all documents -- offsets_exact (sound + complete), startxref_exact, 20-byte entries, sectioning of the '
-                    'cross-reference table and stream; on the property domain -- per-object round trip incl. streams at the recorded '
-                    'offset, header, binary mark, get_xref_start, trailer, cross-reference table parse-back, and the MAIN THEOREM for the '
-                    'TABLE format: load (save_table d) = reloaded_table d, and the second cycle (reloaded document in the domain again, '
-                    'objects idempotent).  NOT proved: the cross-reference STREAM format (missing: xstream_content read back through '
-                    'decode_xref_plain, then the same composition); it is covered by correspondence + direct evaluation on the crate only.  '
+    'partial_note': 'PROVED (C01_full): for every document of the domain outside the known class, both cross-reference formats: load (save d) = '
+                    'reloaded d with same_doc d (reloaded d), and a second cycle on what came back returns the same document again (same as the '
+                    'first reload and as the original). Remaining hypotheses: each of the two files below 4 GiB (small_file for the second file is '
+                    'NOT derived from the first: normal forms and Size may differ in length), and for the stream format one spare object number '
+                    'for the second cycle (cycles_fit). Loader model: Length given as a reference, object streams, filtered cross-reference '
+                    'streams and Encrypt are answered (unmodelled) by Model/Loader.v (never reached by a file save wrote; counted in the notes). '
                     'Open known finding: container nesting deeper than MAX_BRACKET is not reloaded (price of the repair 61b571d).',
 }
 
 MANIFEST = {
     'level_text': 'Machine-checked proof (Coq) about a branch-faithful model of the save pipeline (Model/Save.v, both cross-reference formats) '
-                  'and of Reader::read (Model/Loader.v): for EVERY document the recorded xref offsets are exactly the object header positions and '
-                  'startxref is the body length (byte-counter invariant); every object the writer prints, streams included, parses back to its normal '
-                  'form at its recorded offset (lifting the token/object round trip object_rt); header, binary mark, trailer and the printed '
-                  'cross-reference table read back; and for the table format the whole theorem load (save_table d) = reloaded d with a second '
-                  'cycle (C01_roundtrip_table, C01_again_table) for every savable document outside the recorded known class. The model is tied to the '
-                  'crate by byte-for-byte equality of model and Document::save_to output, loader correspondence on saved and mutated files, and the '
-                  'direct save->load->compare verdict on the crate (two cycles, both formats, default features and --no-default-features).',
-    'technique': 'Coq proof (byte-counter invariant, printer/parser round trip by mutual induction, loader composition) + byte-for-byte differential correspondence',
+                  'and of Reader::read (Model/Loader.v): C01_full -- for every document of the domain outside the recorded known class, in both '
+                  'formats, load (save d) succeeds, remembers the format and returns a document with the same version, the same identifiers with '
+                  'every object in normal form (an integral real becomes the integer, nothing else changes) and the same trailer apart from '
+                  'bookkeeping keys (the stream format additionally keeps its own cross-reference stream object, which is bookkeeping), and a '
+                  'second save/load cycle on that document returns the same document again. Built from: offsets_exact and startxref_exact '
+                  '(byte-counter invariant, all documents), the printer/parser round trip of every object incl. streams (C14 object_rt), header / '
+                  'binary mark / startxref / trailer read-back, the printed cross-reference table parsed back, and lopdf cross-reference stream '
+                  'writer shown to BE the ISO 32000-1 7.5.8 encoder of Spec/XrefSpec.v at W = [1 4 2] so that C02 decoder theorem reads it back. '
+                  'The model is tied to the crate by byte-for-byte equality of model and Document::save_to output, loader correspondence on saved '
+                  'and mutated files, and the direct save->load->compare verdict on the crate (two cycles, both formats, default features and '
+                  '--no-default-features).',
+    'technique': 'Coq proof (byte-counter invariant, printer/parser round trip by mutual induction, refinement of the xref-stream writer to the spec encoder, loader composition) + byte-for-byte differential correspondence',
     'design_ref': 'DESIGN.md 6 C01, notes/C01.md',
-    'level_note': 'Trusted: Coq kernel; translator parts SaveFmt/Lex; extraction + OCaml driver; Rust harness; f32 Display/FromStr assumptions of DESIGN 3. Rung 1 complete for ALL documents (offsets_exact sound+complete, startxref_exact, entry and section shape); rung 2 complete at '
-                  'file level (C14 object_rt lifted to indirect objects and streams, found at the recorded offset; header, binary mark, '
-                  'get_xref_start, trailer, cross-reference table parse-back); rung 3 PARTIAL: C01_roundtrip_table = load (save_table d) = '
-                  'reloaded_table d for every savable document outside the known class and C01_again_table (second cycle) are proved for the '
-                  'table format; the cross-reference stream format is stated in C01_full and NOT proved -- it is tied by '
-                  'byte-for-byte save correspondence, loader correspondence on saved and mutated files, and direct save->load->compare '
-                  '(two cycles, both formats, default and no-default-features) on the crate',
-    'known_findings': ['C01-deep-nesting (open)'],
+    'level_note': 'Trusted: Coq kernel; translator parts SaveFmt/Lex; extraction + OCaml driver; Rust harness; f32 Display/FromStr assumptions of DESIGN 3. '
+                  'Rungs 1-3 complete: C01_full is a theorem for both formats and two cycles. Hypotheses that remain: savable (data-model invariants; '
+                  'max_id need NOT bound the object numbers since the repair 19ab1a6), known_deep = false (open known finding), small_file for each of '
+                  'the two files (u32 offsets; the bound for the second file is not derived from the first), cycles_fit (stream format: one spare '
+                  'object number for the second cycle). Loader features a saved file never uses (Length as reference, object streams, filtered '
+                  'xref streams, Encrypt) are outside Model/Loader.v and tied by correspondence through Model/LoaderExt.v where modelled.',
+    'known_findings': ['C01-deep-nesting (open)', 'C01-stale-max-id (fixed 19ab1a6)'],
 }
 
 
@@ -436,7 +554,15 @@ def seq_pass(ctx):
     a = vlib.run_lines(full, lines, timeout=900, shards=8)
     b = vlib.run_lines(seq, lines, timeout=900, shards=8)
     diff = [i for i in range(len(lines)) if a[i] != b[i]]
-    ctx.notes.append('no-default-features pass: %d cases, %d differences' % (len(lines), len(diff)))
+    def tally(outs):
+        t = {'ok': 0, 'skip': 0, 'FAIL': 0}
+        for o in outs:
+            v = o.rsplit(' ||| ', 1)[-1].split(' ')[0] if ' ||| ' in o else 'FAIL'
+            t[v if v in t else 'FAIL'] += 1
+        return 'ok %(ok)d / skip %(skip)d / FAIL %(FAIL)d' % t
+    ctx.notes.append('feature configurations, same %d cases through both harness builds: default features (rayon parallel reader) verdicts %s; '
+                     '--no-default-features (sequential reader) verdicts %s; outputs differing between the two: %d'
+                     % (len(lines), tally(a), tally(b), len(diff)))
     if diff:
         i = diff[0]
         fail = ' ||| FAIL' in b[i]
